@@ -51,10 +51,11 @@ VARIABLES inflight, orph, reg, owed, thr, closed, defunct, signaled,     \* per 
           fails, cfails,
           st,         \* per request: new, marking, picked, borrowed, sent, done, timedout, errored, refused, nohost
           on,         \* per request: the connection it picked / borrowed (0 = none)
+          late,       \* the connection whose late response the loop thread is in the middle of handling (0 = none)
           act
 cvars == <<inflight, orph, reg, owed, thr, closed, defunct, signaled>>
 pvars == <<cur, trash, replacing, shutdown, sd, rep, opened, fails, cfails>>
-vars  == <<cvars, pvars, st, on, act>>
+vars  == <<cvars, pvars, st, on, late, act>>
 
 NoRep == [ph |-> "none", old |-> 0, new |-> 0]
 Queued(c) == [ph |-> "queued", old |-> c, new |-> 0]
@@ -75,6 +76,7 @@ Init ==
     /\ rep = NoRep /\ opened = 1 /\ fails = 0 /\ cfails = 0
     /\ st = [r \in Reqs |-> "new"]
     /\ on = [r \in Reqs |-> 0]
+    /\ late = 0
     /\ act = A("Init", 0, 0, FALSE)
 
 -----------------------------------------------------------------------------
@@ -128,6 +130,7 @@ BorrowStart(r) ==
        ELSE /\ st' = [st EXCEPT ![r] = IF thr[cur] THEN "marking" ELSE "picked"]
             /\ on' = [on EXCEPT ![r] = cur]
     /\ act' = A("BorrowStart", r, 0, FALSE)
+    /\ UNCHANGED late
     /\ UNCHANGED <<cvars, pvars>>
 
 (* under the pool lock (425-432): test-and-set _is_replacing, submit _replace  *)
@@ -144,6 +147,7 @@ BorrowMark(r) ==
        ELSE UNCHANGED <<replacing, rep>>
     /\ st' = [st EXCEPT ![r] = "picked"]
     /\ act' = A("BorrowMark", r, on[r], FALSE)
+    /\ UNCHANGED late
     /\ UNCHANGED <<cvars, cur, trash, shutdown, sd, opened, fails, cfails, on>>
 
 CanTake(c) == ~(thr[c] /\ closed[c]) /\ inflight[c] < MaxId
@@ -167,6 +171,7 @@ BorrowTake(r) ==
             /\ on' = [on EXCEPT ![r] = 0]
             /\ UNCHANGED inflight
     /\ act' = A("BorrowTake", r, on[r], FALSE)        \* c: the connection picked earlier
+    /\ UNCHANGED late
     /\ UNCHANGED <<orph, reg, owed, thr, closed, defunct, signaled, pvars>>
 
 (* send_msg; on a dead connection ConnectionShutdown, _query returns it *)
@@ -184,31 +189,49 @@ Send(r, down) ==
                /\ Apply(e.K, {}, {c}, [inflight EXCEPT ![c] = @ - 1], reg, owed, [st EXCEPT ![r] = "refused"])
                /\ SetPool(e, 0)
     /\ act' = A("Send", r, 0, down)
+    /\ UNCHANGED late
     /\ UNCHANGED <<orph, thr, on, opened, fails, cfails>>
 
 (* a trashed connection is closed by the return that leaves only orphans (pool.py 486-494) *)
 Drained(c, infl, orp) == c \in trash /\ infl[c] = Cardinality(orp[c])
 
-(* process_msg for the answer to q on connection c *)
+(* process_msg for the answer to q on connection c, its handler still registered *)
 Respond(c, q) ==
-    /\ q \in owed[c] /\ ~closed[c]
-    /\ IF q \in reg[c]
-       THEN LET infl == [inflight EXCEPT ![c] = @ - 1]
-                K == IF Drained(c, infl, orph) THEN {c} ELSE {} IN
-            /\ Apply(K, {}, {}, infl, [reg EXCEPT ![c] = @ \ {q}], [owed EXCEPT ![c] = @ \ {q}], [st EXCEPT ![q] = "done"])
-            /\ trash' = trash \ K
-            /\ orph' = orph
-            /\ act' = A("Respond", q, c, FALSE)
-       ELSE \* late: the request timed out; an orphaned stream is released, the pool is only notified
-            /\ orph' = [orph EXCEPT ![c] = @ \ {q}]
-            /\ inflight' = [inflight EXCEPT ![c] = IF q \in orph[c] THEN @ - 1 ELSE @]
-            /\ owed' = [owed EXCEPT ![c] = @ \ {q}]
-            /\ act' = A("RespondLate", q, c, FALSE)
-            /\ UNCHANGED <<reg, closed, defunct, signaled, st, trash>>
+    /\ late = 0
+    /\ q \in owed[c] /\ ~closed[c] /\ q \in reg[c]
+    /\ LET infl == [inflight EXCEPT ![c] = @ - 1]
+           K == IF Drained(c, infl, orph) THEN {c} ELSE {} IN
+       /\ Apply(K, {}, {}, infl, [reg EXCEPT ![c] = @ \ {q}], [owed EXCEPT ![c] = @ \ {q}], [st EXCEPT ![q] = "done"])
+       /\ trash' = trash \ K
+    /\ orph' = orph
+    /\ act' = A("Respond", q, c, FALSE)
+    /\ UNCHANGED late
     /\ UNCHANGED <<thr, cur, replacing, shutdown, sd, rep, opened, fails, cfails, on>>
+
+(* process_msg for a late answer (the request timed out), connection.py 1261-1267: under conn.lock the       *)
+(* orphaned stream is released - in_flight and orphaned_request_ids change in ONE critical section, so that *)
+(* in_flight - |orphaned_request_ids| (the requests somebody still waits for) is never seen too small.      *)
+(* The rest of the callback (notify the pool, recycle the id) follows in LateFinish; client threads and     *)
+(* executor tasks may run in between, the loop thread's own callbacks may not.                              *)
+LateStart(c, q) ==
+    /\ late = 0
+    /\ q \in owed[c] /\ ~closed[c] /\ q \notin reg[c]
+    /\ orph' = [orph EXCEPT ![c] = @ \ {q}]
+    /\ inflight' = [inflight EXCEPT ![c] = IF q \in orph[c] THEN @ - 1 ELSE @]
+    /\ owed' = [owed EXCEPT ![c] = @ \ {q}]
+    /\ late' = c
+    /\ act' = A("LateStart", q, c, FALSE)
+    /\ UNCHANGED <<reg, closed, defunct, signaled, st, trash, thr, cur, replacing, shutdown, sd, rep, opened, fails, cfails, on>>
+
+LateFinish ==
+    /\ late # 0
+    /\ late' = 0
+    /\ act' = A("LateFinish", 0, late, FALSE)
+    /\ UNCHANGED <<cvars, pvars, st, on>>
 
 (* ResponseFuture._on_timeout *)
 Timeout(r) ==
+    /\ late = 0
     /\ st[r] = "sent"
     /\ LET c == on[r]
            rg == [reg EXCEPT ![c] = @ \ {r}] IN
@@ -223,10 +246,12 @@ Timeout(r) ==
             /\ Apply(K, {}, {}, inflight, rg, owed, [st EXCEPT ![r] = "timedout"])
             /\ trash' = trash \ K
     /\ act' = A("Timeout", r, 0, FALSE)
+    /\ UNCHANGED late
     /\ UNCHANGED <<cur, replacing, shutdown, sd, rep, opened, fails, cfails, on>>
 
 (* socket error: defunct, close, error_all_requests; the first errored request's return tells the pool *)
 ConnFails(c, down) ==
+    /\ late = 0
     /\ c <= opened /\ ~closed[c]
     /\ ~(rep.ph \in {"use", "publish"} /\ rep.new = c)
     /\ cfails < MaxConnFails
@@ -241,6 +266,7 @@ ConnFails(c, down) ==
                /\ Apply({c} \cup e.K, {c}, {}, inflight, reg, owed, st)
                /\ SetPool(e, c)
     /\ act' = A("ConnFails", 0, c, down)
+    /\ UNCHANGED late
     /\ UNCHANGED <<orph, thr, opened, fails, on>>
 
 -----------------------------------------------------------------------------
@@ -249,6 +275,7 @@ ReplaceCheck ==
     /\ rep.ph = "queued"
     /\ rep' = IF shutdown THEN NoRep ELSE [rep EXCEPT !.ph = "open"]
     /\ act' = A("ReplaceCheck", 0, 0, FALSE)
+    /\ UNCHANGED late
     /\ UNCHANGED <<cvars, cur, trash, replacing, shutdown, sd, opened, fails, cfails, st, on>>
 
 (* connection_factory (511); on failure the task resubmits itself (515-517) *)
@@ -264,6 +291,7 @@ ReplaceOpen(ok) ==
             /\ rep' = Queued(rep.old)
             /\ UNCHANGED opened
     /\ act' = A("ReplaceOpen", 0, 0, ok)
+    /\ UNCHANGED late
     /\ UNCHANGED <<cvars, cur, trash, replacing, shutdown, sd, cfails, st, on>>
 
 (* conn.set_keyspace_blocking(self._keyspace) (512-513): a round trip on the new, not yet published  *)
@@ -272,6 +300,7 @@ ReplaceUse ==
     /\ rep.ph = "use"
     /\ rep' = [rep EXCEPT !.ph = "publish"]
     /\ act' = A("ReplaceUse", 0, 0, FALSE)
+    /\ UNCHANGED late
     /\ UNCHANGED <<cvars, cur, trash, replacing, shutdown, sd, opened, fails, cfails, st, on>>
 
 (* self._connection = conn (514).                                             *)
@@ -288,6 +317,7 @@ ReplacePublish ==
             /\ rep' = [rep EXCEPT !.ph = "retire"]
             /\ UNCHANGED <<inflight, reg, owed, closed, defunct, signaled, st>>
     /\ act' = A("ReplacePublish", 0, 0, FALSE)
+    /\ UNCHANGED late
     /\ UNCHANGED <<orph, thr, trash, replacing, shutdown, sd, opened, fails, cfails, on>>
 
 (* retiring the old connection under its lock and the pool lock (519-527).    *)
@@ -303,6 +333,7 @@ ReplaceRetire ==
     /\ replacing' = FALSE
     /\ rep' = NoRep
     /\ act' = A("ReplaceRetire", 0, 0, FALSE)
+    /\ UNCHANGED late
     /\ UNCHANGED <<orph, thr, cur, shutdown, sd, opened, fails, cfails, on>>
 
 -----------------------------------------------------------------------------
@@ -311,6 +342,7 @@ ShutdownMark ==
     /\ sd = "none" /\ ~shutdown
     /\ shutdown' = TRUE /\ sd' = "marked"
     /\ act' = A("ShutdownMark", 0, 0, FALSE)
+    /\ UNCHANGED late
     /\ UNCHANGED <<cvars, cur, trash, replacing, rep, opened, fails, cfails, st, on>>
 
 (* 537-539 *)
@@ -319,6 +351,7 @@ ShutdownCloseCur ==
     /\ Apply(OpenOf({cur}), {}, {}, inflight, reg, owed, st)
     /\ cur' = 0 /\ sd' = "curclosed"
     /\ act' = A("ShutdownCloseCur", 0, 0, FALSE)
+    /\ UNCHANGED late
     /\ UNCHANGED <<orph, thr, trash, replacing, shutdown, rep, opened, fails, cfails, on>>
 
 (* 541-549.  INTENDED (C12): the connections taken out of _trash are closed;  *)
@@ -328,9 +361,10 @@ ShutdownCloseTrash ==
     /\ Apply(OpenOf(trash), {}, {}, inflight, reg, owed, st)
     /\ trash' = {} /\ sd' = "done"
     /\ act' = A("ShutdownCloseTrash", 0, 0, FALSE)
+    /\ UNCHANGED late
     /\ UNCHANGED <<orph, thr, cur, replacing, shutdown, rep, opened, fails, cfails, on>>
 
-Next ==
+Other ==
     \/ \E r \in Reqs : BorrowStart(r) \/ BorrowMark(r) \/ BorrowTake(r) \/ Timeout(r)
     \/ \E r \in Reqs, d \in BOOLEAN : Send(r, d)
     \/ \E c \in Conns, q \in Reqs : Respond(c, q)
@@ -338,6 +372,11 @@ Next ==
     \/ ReplaceCheck \/ ReplaceUse \/ ReplacePublish \/ ReplaceRetire
     \/ \E ok \in BOOLEAN : ReplaceOpen(ok)
     \/ ShutdownMark \/ ShutdownCloseCur \/ ShutdownCloseTrash
+
+Next ==
+    \/ Other
+    \/ \E c \in Conns, q \in Reqs : LateStart(c, q)
+    \/ LateFinish
 
 Spec == Init /\ [][Next]_vars
 
@@ -359,6 +398,7 @@ Accounting ==
 
 Quiescent == /\ sd = "done" /\ rep.ph = "none"
              /\ \A r \in Reqs : st[r] \notin {"marking", "picked", "borrowed", "sent"}
+             /\ late = 0
 AllClosed == Quiescent => \A c \in 1..opened : closed[c]       \* everything ever opened is closed
 NoCurAfterShutdown == sd = "done" => cur = 0 /\ trash = {}
 
@@ -397,6 +437,8 @@ Witness_FailedOldWhileCurrentHealthy ==
 Witness_Repick == ~(act.name = "BorrowTake" /\ st[act.r] = "borrowed" /\ on[act.r] # act.c)
 Witness_InlineShutdown == ~(act.name \in {"ConnFails", "Send"} /\ act.f /\ sd = "done" /\ opened >= 2)
 Witness_QuiescentAllClosed == ~(Quiescent /\ opened >= 2)
+Witness_RetireDuringLateResponse == ~(act.name = "ReplaceRetire" /\ late # 0 /\ late \in trash)
+Witness_BorrowDuringLateResponse == ~(act.name = "BorrowTake" /\ late # 0 /\ st[act.r] = "borrowed" /\ on[act.r] = late)
 Witness_MarkAfterReplacement == ~(act.name = "BorrowMark" /\ on[act.r] # cur /\ cur # 0 /\ ~replacing /\ ~shutdown)
 Witness_ShutdownDuringUse == ~(Ks /\ act.name = "ReplacePublish" /\ shutdown /\ sd = "done")
 =============================================================================
